@@ -94,6 +94,9 @@ def run(c):
     for m in repaired:
         if m["violated"]:
             c.drift("%s (repaired transcription) violates %s" % (m["module"], m["violated"]))
+    for m in pinned:
+        if not skip_models and not m["violated"]:
+            c.vacuous.append("%s as written (the snapshot) no longer violates its invariant: the model lost its teeth" % m["module"])
     pv = ["%s:%s" % (m["module"], m["violated"]) for m in pinned if m["violated"]]
     if pv:
         c.note("model-level findings of the transcription as written: " + ", ".join(pv))
